@@ -45,6 +45,8 @@ def families(tier):
                                         'mut_kinds': ['none', 'write', 'mkdir', 'file2dir']}, 'weight': 1})
     q.append({'name': 'A5c', 'params': {'hist': 'BMB', 'kinds': ['is_dir'], 'modes': ['ok', 'raise_after'], 'mut_paths': ['o/z', 'o/d/z', 'o/d'],
                                         'mut_kinds': ['none', 'write', 'mkdir', 'file2dir']}, 'weight': 1})
+    # outputs in a hand-made directory are dropped by the next build: the directory is not the library's to remove
+    q.append({'name': 'A10', 'params': {'hist': 'BMB', 'kinds': ['is_dir'], 'mut_paths': ['o/d/g', 'o/d/z'], 'mut_kinds': ['none', 'delete', 'write']}, 'weight': 1})
     q.append({'name': 'nested-build', 'params': {}, 'weight': 1})
     q.append({'name': 'S1', 'params': {'hist': 'F'}, 'weight': 1})
     q.append({'name': 'S1', 'params': {'hist': 'BMF', 'mut_paths': ['o/d', 'o/d/g', 'o/z']}, 'weight': 2})
